@@ -112,8 +112,11 @@ class Pair:
                     {frozenset(e): c for e, c in zip(g_edges, case['g_ecol'])})
 
 
-def check_pair(pair, acc, do_lcs=True, sample=False):
-    from vermouth.ismags import ISMAGS
+def check_pair(pair, acc, do_lcs=True, sample=False, cache=None):
+    from vermouth.ismags import ISMAGS as _ISMAGS
+    import functools
+    # `cache` (a dict shared between calls, as RepairGraph does per molecule) must never change an answer
+    ISMAGS = functools.partial(_ISMAGS, cache=cache) if cache is not None else _ISMAGS
     graph, pattern = pair.nx()
     multi_col = len(set(pair.p_col.values()) | set(pair.g_col.values())) > 1
     multi_ecol = len(set(pair.p_ecol.values()) | set(pair.g_ecol.values())) > 1
@@ -249,6 +252,7 @@ def work(task):
                 check_pair(Pair(range(n), p_edges, gn2, ge2), acc, do_lcs=do_lcs, sample=(acc.states % 9001 == 0))
     elif kind == 'coloured':
         (n, p_edges), graphs = payload
+        shared_cache = {}      # one symmetry cache for all colourings of this pattern structure and all graphs
         for p_colours in itertools.product((0, 1), repeat=n):
             if p_colours[0] != 0:
                 continue      # colour names are symmetric
@@ -256,7 +260,7 @@ def work(task):
                 for g_colours in itertools.product((0, 1), repeat=len(g_nodes)):
                     pair = Pair(range(n), p_edges, [v + 10 for v in g_nodes], [(a + 10, b + 10) for a, b in g_edges],
                                 dict(zip(range(n), p_colours)), dict(zip([v + 10 for v in g_nodes], g_colours)))
-                    check_pair(pair, acc, sample=(acc.states % 9001 == 0))
+                    check_pair(pair, acc, sample=(acc.states % 9001 == 0), cache=shared_cache)
     elif kind == 'edge-coloured':
         (n, p_edges), graphs = payload
         for p_ec in itertools.product((0, 1), repeat=len(p_edges)):
